@@ -512,9 +512,10 @@ def run(c, index, tier):
             sim.viol("get_params-raised", (what, type(e).__name__), "get_params(deep=True) raised %s (%s)" % (U.short_exc(e), what))
             return None
 
+    shallow_pairs = []
     nops = ch.integer("w", 4, 18, "nops")
     for k in range(nops):
-        op = ch.weighted("w", [("set", 6), ("transplant", 3), ("clone", 2), ("get", 2), ("replace-by-clone", 1), ("fit", 1), ("set-multi", 2), ("set-other-family", 1)], "op")
+        op = ch.weighted("w", [("set", 6), ("transplant", 3), ("clone", 2), ("get", 2), ("replace-by-clone", 1), ("fit", 1), ("set-multi", 2), ("set-other-family", 1), ("set-nothing", 1), ("shallow-copy", 1)], "op")
         i = ch.draw("w", len(insts), "which")
         x = insts[i]
         if len(c.scenario["ops"]) < 24:
@@ -589,10 +590,48 @@ def run(c, index, tier):
                     continue
                 if shared_i & set(_nested_objects(y)):
                     c.probe("aliasing_between_instances")
+                    # objects that share nested estimators (a shallow copy): a
+                    # top-level key holding a plain value still belongs to one
+                    # object only
+                    if "__" not in kk and not hasattr(v, "get_params") and not isinstance(v, list) and not kk.startswith(("e_", "c_", "models_")):
+                        if kk in before[j] and kk in after[j] and not (before[j][kk] is after[j][kk] or _same_value(before[j][kk], after[j][kk])):
+                            sim.viol("frame-other-instance", ("shallow-copy", _key_class(kk)), "set_params(%s=%r) on one object changed the same top-level parameter of its shallow copy: %r -> %r" % (kk, v, before[j][kk], after[j][kk]))
                     continue
                 d = _equal_params(before[j], after[j])
                 if d:
                     sim.viol("frame-other-instance", (), "set_params on one instance changed another instance that shares no object with it: %s" % d)
+        elif op == "set-nothing":
+            # the empty point of a parameter grid: no key, the estimator itself
+            # comes back and nothing changes
+            before = params_of(x, "before-set")
+            if before is None:
+                return
+            ok, r = U.sut(c, "set_params()", x.set_params)
+            if not ok:
+                sim.viol("set_params-raised", ("no-key", type(r).__name__), "set_params() without any key raised %s" % U.short_exc(r))
+                return
+            if r is not x:
+                sim.viol("set_params-return", ("no-key",), "set_params() without any key returned %r instead of the estimator itself" % (type(r).__name__,))
+            after = params_of(x, "after-set")
+            if after is None:
+                return
+            d = _equal_params(before, after)
+            if d:
+                sim.viol("frame", ("no-key",), "set_params() without any key changed the parameters: %s" % d)
+            c.probe("set_params_without_keys")
+        elif op == "shallow-copy":
+            # copy.copy(est): another live object that shares the nested
+            # objects but owns its top-level parameters
+            import copy as _copy
+
+            try:
+                y2 = _copy.copy(x)
+            except Exception:  # noqa: BLE001
+                continue
+            if len(insts) < 4:
+                insts.append(y2)
+                shallow_pairs.append((x, y2))
+                c.probe("shallow_copy_taken")
         elif op == "set-other-family":
             # an estimator-valued parameter is replaced by an estimator of
             # another family (a regressor where a classifier was, as a grid over
